@@ -293,7 +293,7 @@ def write_plotfile(path, AP, cfg, reg=None, values=None, mm_override=None):
 
 # ---------------------------------------------------------------- meshes for layout-only properties
 
-def mesh_from_classes(level_classes, ndims=3):
+def mesh_from_classes(level_classes, ndims=3, cross=(3, 2)):
     """
     Build box index ranges for properties where only the *number* of boxes per level and their
     shape class matter.  level_classes[lv] = list of shape classes (1,2,..) in header order.
@@ -302,7 +302,7 @@ def mesh_from_classes(level_classes, ndims=3):
     z in 0..1 (a partially refined strip).  Same class <=> same shape (within a level); no box
     is cubic.
     """
-    ny0, nz0 = 3, 2
+    ny0, nz0 = cross                 # cells of the level-0 cross-section; (3, 1): boxes one cell thick along the last axis
     width0 = max(sum(c + 1 for c in cl) for cl in level_classes)
     dom = [width0, ny0, nz0][:ndims]
     levels = []
@@ -315,7 +315,7 @@ def mesh_from_classes(level_classes, ndims=3):
                 lo, hi = [x, 0, 0], [x + w - 1, ny0 - 1, nz0 - 1]
             else:
                 w = 2 * (c + 1)
-                lo, hi = [x, 2, 0], [x + w - 1, 5, 1]
+                lo, hi = [x, 2 if ny0 >= 3 else 0, 0], [x + w - 1, 5 if ny0 >= 3 else 2 * ny0 - 1, 2 * nz0 - 1 if nz0 < 2 else 1]
             boxes.append({"lo": lo[:ndims], "hi": hi[:ndims]})
             x += w
         levels.append(boxes)
@@ -331,9 +331,9 @@ def layout_identity(nb, nfiles=1):
     return file, disk
 
 
-def make_ap(src, fields, level_classes, layouts=None, ndims=3, time=0.5):
+def make_ap(src, fields, level_classes, layouts=None, ndims=3, time=0.5, cross=(3, 2)):
     """Convenience: abstract plotfile from shape classes and (optional) per-level layouts."""
-    dom, lv_boxes = mesh_from_classes(level_classes, ndims)
+    dom, lv_boxes = mesh_from_classes(level_classes, ndims, cross)
     levels = []
     for lv, boxes in enumerate(lv_boxes):
         if layouts is not None and layouts[lv] is not None:
@@ -351,15 +351,17 @@ def make_ap(src, fields, level_classes, layouts=None, ndims=3, time=0.5):
 # pools: plain letters; names of which one is a PREFIX of another, with parentheses and dots; names with a blank, a digit suffix,
 # a hyphen.  The unknown name becomes a proper prefix of a known one (a lookup by prefix or substring would accept it).
 NAME_POOLS = [
-    (["a", "b", "c", "d", "e", "f"], "zz"),
-    (["temp", "temperature", "Y(H2)", "Y(H2O)", "rho.E", "x_velocity"], "Y(H2"),
-    (["mag vort", "mag", "density", "density2", "I_R(CH4)", "T-1"], "densit"),
+    (["a", "b", "c", "d", "e", "f", "g", "h"], "zz"),
+    (["temp", "temperature", "Y(H2)", "Y(H2O)", "rho.E", "x_velocity", "Y(H)", "tempe"], "Y(H2"),
+    (["mag vort", "mag", "density", "density2", "I_R(CH4)", "T-1", "mag vort z", "2T"], "densit"),
+    # characters that mean something to a pattern matcher (glob / regular expression) but are plain characters of a name
+    (["u[1]", "u1", "T*", "Tmax", "p?", "pq", "a.b", "axb"], "u[2]"),
 ]
 
 
 def names_map(seed, abstract, blanks=True):
     """{abstract name -> concrete name} for the abstract names given (order of first appearance) plus 'zz'."""
-    pools = NAME_POOLS if blanks else NAME_POOLS[:2]
+    pools = NAME_POOLS if blanks else [q for q in NAME_POOLS if not any(" " in n for n in q[0])]
     pool, unknown = pools[seed % len(pools)]
     out, k = {}, 0
     for n in abstract:
